@@ -350,11 +350,11 @@ def c09():
 def c10():
     import gen
     files = gen.c10_files(os.path.join(GEN, 'C10'), CUR_TIER, CUR_SEED)
-    qs = [Q(name, path, 3, timeout=900, ncases=n, portfolio=True) for name, path, n in files] + [Q('re_null_guard', 'C10/re.cpp', 16, defs={'VF_CLAIM': 10}), Q('fp_order', 'C10/fp.cpp', 4, timeout=600)]
+    qs = [Q(name, path, 3, timeout=900, ncases=n, portfolio=True) for name, path, n in files] + [Q('re_null_guard', 'C10/re.cpp', 16, defs={'VF_CLAIM': 10}), Q('fp_order', 'C10/fp.cpp', 4, timeout=600), Q('mixed_plain', 'C10/mixed.cpp', 4, timeout=600)]
     return dict(
         queries=qs,
         level='model_checking',
-        level_text='Bounded: param_matches(tree, x) equals the mathematical predicate for all 32-bit argument and operand values (and null / non-null pointers), for every matcher expression tree in the enumerated + drawn set of depth <= 3; the six ordering matchers on double agree with the built-in operators for every pair of 64-bit patterns (NaN, infinities, signed zeros), also typed, negated and under all_of / any_of (C10/fp.cpp).',
+        level_text='Bounded: param_matches(tree, x) equals the mathematical predicate for all 32-bit argument and operand values (and null / non-null pointers), for every matcher expression tree in the enumerated + drawn set of depth <= 3; the six ordering matchers on double agree with the built-in operators for every pair of 64-bit patterns (NaN, infinities, signed zeros), also typed, negated and under all_of / any_of (C10/fp.cpp); plain operands of another arithmetic type than the parameter (long long / double / int vs int / unsigned / bool, all bit patterns) decide as the built-in x == v (C10/mixed.cpp).',
         bound='expression trees of depth <=3 over eq/ne/lt/le/gt/ge (duck-typed and <int>), _, ANY(int), plain values, !, *, any_of/all_of/none_of with 1..3 operands, MEMBER_IS; all int values',
         outside='what the regular expression engine matches (libstdc++; re() is claimed only as: accepts iff the subject is non-null and the engine, replaced by an arbitrary verdict, finds the expression, with the subject range begin..begin+strlen, or data..data+length for a view-like subject of symbolic length); string operands',
     )
@@ -478,7 +478,7 @@ def c17():
 @prop('C18')
 def c18():
     qs = []
-    for t in (0, 2, 3, 4, 5, 6, 7, 8):
+    for t in (0, 2, 3, 4, 5, 6, 7, 8, 9):
         qs.append(Q('print_T%d' % t, 'C18/print.cpp', 45, defs={'VF_T': t}, timeout=300))
     quick_sizes = (1, 2, 7, 8, 9, 15, 16, 17, 31, 32, 33, 40)
     for sz in range(1, 41):
@@ -488,7 +488,7 @@ def c18():
         queries=qs,
         level='model_checking',
         level_text='Bounded: print() on a stream with arbitrary prior (width<=64, any flags, any fill): leaves are inserted decimal/unpadded, the hex dump inserts exactly sizeof(T) bytes in order with the documented line breaks, null pointers print nullptr without dereference, pairs/tuples/collections are element-wise, printer<T> wins, and the prior state is restored after leaf / hex-dump prints.',
-        bound='int, opaque structs of 1..40 bytes (12 sizes quick, all thorough), char const*, int*, unique_ptr<int>, nullptr_t, user null-comparable objects (bool and non-bool operator==, alone and inside a pair), pair, tuple<3>, nested pair with null, std::array<3>, C array, empty array, printer<T>; all values/bytes; all flags, fill, width<=64',
+        bound='int, opaque structs of 1..40 bytes (12 sizes quick, all thorough), char const*, int*, unique_ptr<int>, nullptr_t, pointer to data member, user null-comparable objects (bool and non-bool operator==, alone and inside a pair), pair, tuple<3>, nested pair with null, std::array<3>, C array, empty array, printer<T> (also for a pointer type, null and non-null); all values/bytes; all flags, fill, width<=64',
         outside='node-based containers, std::string values, real character rendering (the token model records what is inserted and with which stream state; the native build compares exact text on replayed vectors)',
         assumptions=['stream model rt/strings.inc: insertion tokens + (width, flags, fill) triple; formatted insertion resets width'],
     )
